@@ -103,8 +103,10 @@ type c15Session struct {
 	evSeen        int
 }
 
-func (s *c15Session) logf(f string, a ...interface{}) { s.trace = append(s.trace, fmt.Sprintf(f, a...)) }
-func (s *c15Session) tr8() string                     { return strings.Join(s.trace, "\n") }
+func (s *c15Session) logf(f string, a ...interface{}) {
+	s.trace = append(s.trace, fmt.Sprintf(f, a...))
+}
+func (s *c15Session) tr8() string { return strings.Join(s.trace, "\n") }
 
 // call runs f under the deadlock watchdog.
 func (s *c15Session) call(name string, f func()) *ev.Failure {
